@@ -155,7 +155,7 @@ def tables_of(sd):
     return tabs
 
 def sp2s(space, nm):
-    return "".join(str(space[v]) if v in space else "*" for v in nm)
+    return "".join(str(int(space[v])) if v in space else "*" for v in nm)
 
 def s2sp(s, nm):
     return {v: int(c) for v, c in zip(nm, s) if c != "*"}
